@@ -16,10 +16,17 @@
     values <path>                                                             → ok hex,hex / <error>       (Nodes.values)
     groupby <path> <depth>                                                    → ok p,p / <error>           (EntryCache.group_by keys)
     expandsafe <path>                                                         → ok <RelativefySafe> <expandOf 3 = expandFullOf>
+    find <via> <depth> <tester>                                               → ok path:name:size:valuehex|… / <error>   (ASTFinder.find; tester = all | leaf | inner | name=<tag> | idx | deep>=<n>)
+    fexists <path>                                                            → true|false / <error>                     (ASTFinder.exists)
+    pathfyd <pathhex> <depth>                                                 → path:name:size:valuehex|…               (ASTFinder.full_pathfy(root, path, depth), any path string)
+    conforms                                                                  → true|false  (every parent/child name pair of the tree is in Generated.GrammarChildren.kids)
+    uheight <path>                                                            → ok <n> / Errors.NodeNotFound  (nested unresolvable levels from the entry at path, under the current table)
+    chainfree                                                                 → true|false  (chainFreeB of the generated child table under the current table's resolvable tags)
 -/
 import Tranp.Driver.Common
 import Tranp.Model.AstPath
 import Tranp.Model.NodesMemo
+import Tranp.Generated.GrammarChildren
 
 namespace Tranp.Driver.Tree
 open Tranp Tranp.AstPath Tranp.Driver
@@ -80,6 +87,21 @@ instance : Inhabited World := ⟨⟨.empty, {}, {}⟩⟩
 def digest (e : Entry) : String := s!"{l2s e.name}:{size e}:{Str.hex e.value}"
 
 def err (e : Err) : String := e.toString
+
+/-- the testers the harness passes to `ASTFinder.find` -/
+def parseTester (s : String) : Option (Entry → Str → Bool) :=
+  if s == "all" then some (fun _ _ => true)
+  else if s == "leaf" then some (fun e _ => !e.hasChild)
+  else if s == "inner" then some (fun e _ => e.hasChild)
+  else if s == "idx" then some (fun _ p => p.getLast? == some ']')
+  else if s.startsWith "name=" then let t := s2l (s.drop 5).toString; some (fun e _ => e.name == t)
+  else if s.startsWith "deep>=" then
+    match (s.drop 6).toString.toNat? with
+    | some n => some (fun _ p => decide (Str.count '.' p ≥ n))
+    | none => none
+  else none
+
+def showKVs (l : List (Str × Entry)) : String := "|".intercalate (l.map fun kv => s!"{l2s kv.1}:{digest kv.2}")
 
 /-- one query on the modelled `Nodes` instance (instance cache + memo), formatted -/
 def query (st : St) (q : Query) (single : Bool) (classOnly : Bool := false) : St × String :=
@@ -162,6 +184,27 @@ def step (st : St) : List String → St × String
       let c := decide (expandOf st.w.table.canResolve 3 x q = expandFullOf st.w.table.canResolve x q)
       (st, s!"ok {b} {c}")
     | none => (st, "Errors.NodeNotFound")
+  | ["find", via, d, tst] =>
+    match d.toInt?, parseTester tst with
+    | some depth, some tester =>
+      match findS st.w.root (s2l via) tester depth with
+      | .ok l => (st, "ok " ++ showKVs l)
+      | .error er => (st, err er)
+    | _, _ => (st, "bad-op")
+  | ["fexists", p] =>
+    match finderExists st.w.root (s2l p) with
+    | .ok b => (st, toString b)
+    | .error er => (st, err er)
+  | ["pathfyd", p, d] =>
+    match d.toInt? with
+    | some depth => (st, showKVs (fullPathfyD st.w.root (unhexD p) depth))
+    | none => (st, "bad-op")
+  | ["conforms"] => (st, toString (conformsB (relOf Generated.GrammarChildren.kids) st.w.root))
+  | ["uheight", p] =>
+    match (pathfy st.w.root [⟨st.w.root.name, none⟩]).find? (fun pe => encodePath pe.1 == s2l p) with
+    | some (_, x) => (st, s!"ok {uheight st.w.table.canResolve x}")
+    | none => (st, "Errors.NodeNotFound")
+  | ["chainfree"] => (st, toString (chainFreeB Generated.GrammarChildren.kids st.w.table.canResolve))
   | ["ep.valid", p] => (st, toString (EP.valid (unhexD p)))
   | ["ep.joined", p, r] => (st, Str.hex (EP.joined (unhexD p) (unhexD r)))
   | ["ep.identify", p, t, i] =>
